@@ -47,8 +47,11 @@ fn explore_with(
 fn large_text_histories() -> Vec<History> {
     use crate::ir::*;
     let mut out = Vec::new();
-    for &n in &[1_048_000usize, 1_200_000, 3_000_000] {
+    for &n in &[1_048_000usize, 1_200_000, 3_000_000, 12_000_000, 17_000_000] {
         for &add in &[1usize, 70_000, 200_000, 600_000] {
+            if n > 4_000_000 && add != 1 && add != 600_000 {
+                continue;
+            }
             for variant in 0..6u8 {
                 let big = Text::Repeat { n, unit: 'L' };
                 let grow = Text::Repeat { n: add, unit: 'g' };
@@ -71,7 +74,7 @@ fn large_text_histories() -> Vec<History> {
                         ops.push(Op::ShrinkToFit { slot: 0, try_: false });
                     }
                     _ => {
-                        ops.push(Op::Extend { slot: 0, it: IterSpec { kind: IterKind::Str, items: vec!["é€𝄞".repeat(add / 9 + 1)], slots: vec![], hint: None, panic_at: None } });
+                        ops.push(Op::Extend { slot: 0, it: IterSpec { kind: IterKind::Str, items: vec!["é€𝄞".repeat(add / 9 + 1)], slots: vec![], hint: None, panic_at: None, loose: None } });
                         ops.push(Op::Remove { slot: 0, idx: Idx::Raw(0), try_: false });
                     }
                 }
